@@ -13,6 +13,8 @@ from . import report
 from .model import AnalysisError, Model
 
 PROPS = ["C%02d" % i for i in range(1, 21)]
+# properties whose mechanisms do not go through the visitor / pass machinery (VM state, pickling, the byte writer)
+INFRA_FREE = {"C15", "C17", "C19"}
 
 
 _MODEL_IDS = {}
@@ -52,7 +54,26 @@ def run_rules(prop: str, root: str, tier: str):
     _memoise_rule_modules()
     model = Model(root)
     col = report.Collector(prop)
-    mod.run(model, col, tier)
+    # the shared machinery the property's own rules take for granted (visitor dispatch, pass protocol, recovery regions,
+    # child traversal, operator enum): rule <prop>.0
+    if prop not in INFRA_FREE:
+        from . import infra
+
+        r0 = f"R{prop[1:]}.0"
+        infra.check_visitor_core(model, col, r0)
+        infra.check_pass_process(model, col, r0)
+        infra.check_error_context(model, col, r0)
+        infra.check_ast_traversal(model, col, r0)
+        infra.check_op_enum(model, col, r0)
+    try:
+        mod.run(model, col, tier)
+    except AnalysisError as e:
+        known = report.load_known()
+        if any(not report.match_known(known, prop, o) for o in col.violations):
+            # a violated rule already explains why the model of this tree cannot be built further
+            col.info(f"analysis stopped after the violation(s) above: {e}")
+        else:
+            raise
     for rule, what, count, minimum in col.floors:
         if count < minimum:
             if col.violations:
